@@ -178,6 +178,11 @@ pub fn run(reg: &Registry, c: &RCase, ctx: &Ctx) -> PResult {
         Outcome::Infra(_) => "infra",
     };
     ctx.classf(format!("{}/{}/{}", c.entry, kind, oname));
+    // CPU time of the slowest cases per entry point (per call): the margin below the budget is part of the evidence
+    let per_call = st.cpu_us / c.reps.max(1) as u64;
+    if per_call >= 300_000 {
+        ctx.classf(format!("cpu/{}/{}", c.entry, if per_call >= 3_000_000 { ">=3s" } else if per_call >= 1_000_000 { "1-3s" } else { "0.3-1s" }));
+    }
     if m.nontrivial {
         let mut h = fnv64(c.entry.as_bytes());
         for a in &m.args {
